@@ -516,7 +516,8 @@ def c02(rep, tier, seed):
 @check("C05")
 def c05(rep, tier, seed):
     """executors: Called xor Dropped, steps run where told, StopError on rejection (Pipeline.tla x rejection points)"""
-    cfgs = [("Pipeline_C05_quick.cfg", "programs of length <= 2 x per-step executor choice x rejection point k in {0,1,never}")]
+    cfgs = [("Pipeline_C05_quick.cfg", "programs of length <= 2 x per-step executor choice x rejection point k in {0,1,never}"),
+            ("Pipeline_C12_deep.cfg", "lazy programs of length <= 3 over a small alphabet, started on another executor or abandoned")]
     if tier == "thorough":
         cfgs.append(("Pipeline_C05_thorough.cfg", "programs of length <= 3 x rejection point k in {0,1,2,never}"))
     seq.check_pipeline(rep, cfgs, {"C05"}, tier, crash_key=_inner_task_key)
@@ -538,7 +539,9 @@ def c05(rep, tier, seed):
 @check("C12")
 def c12(rep, tier, seed):
     """Task: nothing before start, then like the eager twin; cancel runs no value callback (Pipeline.tla lazy mode)"""
-    cfgs = [("Pipeline_C12_quick.cfg", "lazy programs of length <= 2 x 6 ways of starting / abandoning")]
+    cfgs = [("Pipeline_C12_quick.cfg", "lazy programs of length <= 2 x 6 ways of starting / abandoning"),
+            ("Pipeline_C12_deep.cfg", "lazy programs of length <= 3 (four cores) over a small alphabet: inherited / explicit / inline "
+             "steps, value / recovery callbacks, rejecting executors, started on another executor or abandoned")]
     if tier == "thorough":
         cfgs.append(("Pipeline_C12_thorough.cfg", "lazy programs of length <= 3"))
     seq.check_pipeline(rep, cfgs, {"C12", "C02"}, tier, crash_key=_inner_task_key)
